@@ -1633,6 +1633,19 @@ class CodeGenerator(NodeVisitor):
 
     def visit_AssignBlock(self, node: nodes.AssignBlock, frame: Frame) -> None:
         self.push_assign_tracking()
+
+        # Like visit_Assign, ``a.b`` is only valid as a target if ``a``
+        # is a Namespace object.
+        if isinstance(node.target, nodes.NSRef):
+            ref = frame.symbols.ref(node.target.name)
+            self.writeline(f"if not isinstance({ref}, Namespace):")
+            self.indent()
+            self.writeline(
+                "raise TemplateRuntimeError"
+                '("cannot assign attribute on non-namespace object")'
+            )
+            self.outdent()
+
         block_frame = frame.inner()
         # This is a special case.  Since a set block always captures we
         # will disable output checks.  This way one can use set blocks
